@@ -87,7 +87,57 @@ def check(chk):
     from . import shared
     shared.paux_rules(chk, m, 'R14.4')
     r146(chk, m)
+    r147(chk, m)
     chk.decline('uniqueness of ids per file and reachability through the table of contents for concrete documents (runtime)')
+
+
+def r147(chk, m):
+    R = chk.rule('R14.7', 'index page references on the heap: a page reference made for an ordinary entry answers `url` (and every other '
+                 'attribute) with that of the node it stands for; one made for a see / see-also entry has no url', 3)
+    MOD = 'plasTeX.Base.LaTeX.Index'
+    IE, ID = m.cls(MOD, 'IndexEntry'), m.cls(MOD, 'IndexDestination')
+    ga = m.find_method(ID, '__getattribute__')
+    init = m.find_method(ID, '__init__')
+    need(init is not None, 'IndexDestination.__init__ not found')
+    chk.analysed(init)
+
+    class H(A.Hooks):
+        cls = ID
+
+        def keep(self, ev):
+            return False
+
+        def call(self, interp, node, fname, args, kwargs, state):
+            if fname == 'object.__getattribute__' and len(args) == 2 and isinstance(args[0], A.Obj) and isinstance(args[1], str):
+                if args[1] in args[0].attrs:
+                    return A.NONE if args[0].attrs[args[1]] is None else args[0].attrs[args[1]]
+                return None
+            return None
+    for label, kind, want in (('an ordinary entry', 'TYPE_NORMAL', "'sec.html#x'"), ('a see entry', 'TYPE_SEE', 'None'), ('a see-also entry', 'TYPE_SEEALSO', 'None')):
+        h = H()
+        h.should_inline = lambda fname, node, info: True
+        it = A.Interp(model=m, scope=init, hooks=h, max_iter=4, exc_edges=False, inline=6, heap=True, precise_exc=True)
+        it.run_init = True
+        node = A.Obj('referring-node', {'url': 'sec.html#x', 'id': 'x'})
+        st = A.State({'__node': node, 'IndexEntry': IE, 'IndexDestination': ID})
+        try:
+            dest = it.ev(ast.parse('IndexDestination(IndexEntry.%s, __node)' % kind, mode='eval').body, st)
+            if ga is not None and isinstance(dest, A.Obj):
+                r = it._call_obj_method(dest, '__getattribute__', ['url'], st, 0)
+                val = r[0] if r is not None else A.TOP
+            else:
+                st.env['__dest'] = dest
+                val = it.ev(ast.parse('__dest.url', mode='eval').body, st)
+        except AnalysisError as e:
+            chk.undecided(R, 'url of the page reference of %s' % label, str(e), chk.where(ID))
+            continue
+        if it.imprecise or it.unknown_branches or not (A.is_concrete(val)) or isinstance(val, A.Obj):
+            chk.undecided(R, 'url of the page reference of %s' % label, 'the url is %r (%s)' % (val, '; '.join((list(it.imprecise) + list(it.unknown_branches))[:2])), chk.where(ID))
+            continue
+        got = {('raise %s' % st.env['__exc'],) if '__exc' in st.env else (repr(val),)}
+        chk.decide(R, 'url of the page reference of %s' % label, got, {(want,)},
+                   'IndexDestination(IndexEntry.%s, node).url with node.url = "sec.html#x" gives %s; expected %s - the index links to the place of the '
+                   'ordinary entries and prints see-references without a link' % (kind, sorted(got), want), chk.where(ID))
 
 
 def r141(chk, m):
